@@ -42,6 +42,7 @@ type c20Input struct {
 	Limit   int      `json:"limit,omitempty"`
 	Path    []any    `json:"path,omitempty"`
 	Schema  int      `json:"schema,omitempty"`
+	BuiltIn []bool   `json:"builtin,omitempty"` // per source: marked as a built-in source
 }
 
 var knownRules = func() map[string]bool {
@@ -251,7 +252,7 @@ func c20Run(m *errMonitor, in c20Input) {
 			if i < len(in.Names) {
 				n = in.Names[i]
 			}
-			out = append(out, &ast.Source{Name: n, Input: t})
+			out = append(out, &ast.Source{Name: n, Input: t, BuiltIn: i < len(in.BuiltIn) && in.BuiltIn[i]})
 		}
 		return out
 	}
@@ -289,6 +290,23 @@ func c20Run(m *errMonitor, in c20Input) {
 					err = errs
 				}
 			} else if errs := validator.Validate(kitSchema(in.Schema), q); len(errs) > 0 {
+				err = errs
+			}
+		case "ValidateAfterReplace":
+			// every standard rule swapped in again through ReplaceRule (the documented way to exchange a rule)
+			validation = true
+			q, perr := parser.ParseQuery(&ast.Source{Name: in.Names[0], Input: in.Query})
+			if perr != nil {
+				validation = false
+				err = perr
+				return
+			}
+			regReset()
+			defer regReset()
+			for _, r := range c18Standard {
+				validator.ReplaceRule(r.Name, r.RuleFunc)
+			}
+			if errs := validator.Validate(kitSchema(in.Schema), q); len(errs) > 0 {
 				err = errs
 			}
 		case "LoadQuery":
@@ -379,7 +397,7 @@ func runC20(c *explore.Ctx) {
 
 	// 2. schema loading from two named sources
 	k := c.Pick(1, 2)
-	s = c.Sub("loading", fmt.Sprintf("every type system of the schema kit with ≤ %d menu items, the base in base.graphql and the menu items in items.graphql", k),
+	s = c.Sub("loading", fmt.Sprintf("every type system of the schema kit with ≤ %d menu items, the base in base.graphql and the menu items in items.graphql (both orders; either source also marked built-in)", k),
 		"every load error is well-formed and names one of the two sources", "type systems that are rejected")
 	if s != nil {
 		t0 := time.Now()
@@ -397,12 +415,15 @@ func runC20(c *explore.Ctx) {
 			}
 			c20Run(m, c20Input{Entry: "LoadSchema", Sources: []string{strings.Join(gen.KitBase, "\n"), strings.Join(its, "\n")}, Names: []string{"base.graphql", "items.graphql"}})
 			c20Run(m, c20Input{Entry: "LoadSchema", Sources: []string{strings.Join(its, "\n"), strings.Join(gen.KitBase, "\n")}, Names: []string{"items.graphql", "base.graphql"}})
+			// the same with a source marked built-in (its errors still name the file)
+			c20Run(m, c20Input{Entry: "LoadSchema", Sources: []string{strings.Join(gen.KitBase, "\n"), strings.Join(its, "\n")}, Names: []string{"base.graphql", "items.graphql"}, BuiltIn: []bool{false, true}})
+			c20Run(m, c20Input{Entry: "LoadSchema", Sources: []string{strings.Join(gen.KitBase, "\n"), strings.Join(its, "\n")}, Names: []string{"base.graphql", "items.graphql"}, BuiltIn: []bool{true, false}})
 		})
 		finish(s, m, t0)
 	}
 
 	// 3. validation errors of every rule
-	s = c.Sub("validation", fmt.Sprintf("every document of the validation-kit profiles (%d) validated under the default rules from a named source, and through LoadQuery", profileDocCount()),
+	s = c.Sub("validation", fmt.Sprintf("every document of the validation-kit profiles (%d) validated under the default rules from a named source, through LoadQuery, and (every 8th) under the default rules after each rule was re-registered with ReplaceRule", profileDocCount()),
 		"every validation error has a non-empty message, a known rule name, at least one positive location, the file of the query source, JSON shape and round trip", "documents with errors")
 	if s != nil {
 		t0 := time.Now()
@@ -422,6 +443,7 @@ func runC20(c *explore.Ctx) {
 			c20Run(m, c20Input{Entry: "Validate", Query: d.Doc, Names: []string{"query.graphql"}, Schema: d.Schema})
 			if s.States%8 == 0 {
 				c20Run(m, c20Input{Entry: "LoadQuery", Query: d.Doc, Schema: d.Schema})
+				c20Run(m, c20Input{Entry: "ValidateAfterReplace", Query: d.Doc, Names: []string{"query.graphql"}, Schema: d.Schema})
 			}
 		})
 		finish(s, m, t0)
